@@ -253,6 +253,11 @@ func C09Cases(tier string, seed int64) []Case {
 	}
 	for _, ch := range chs {
 		for _, l := range ls {
+			if len(ch) > 1 && l > 1 {
+				// (Xi ≥ 16 with L ≥ 2 exceeds the engine's fork-depth bound in the ECBBOT harness:
+				// reported inconclusive, so the wide instances run with L = 1)
+				continue
+			}
 			c, ll := ch, l
 			cases = append(cases, Case{ID: fmt.Sprintf("C09/vsot/L=%d/choices=%x", l, ch), Desc: map[string]any{"protocol": "vsot", "Xi": 8 * len(ch), "L": l, "choices": fmt.Sprintf("%x", ch), "randomness": "symbolic"},
 				Sym: func(e *SymEnv) { c09VSOT(e, ll, c) }, MustReach: []string{"vsot-done"}})
